@@ -8,7 +8,7 @@ use mp4::{Metadata, Mp4Box, Mp4Reader};
 use std::io::Cursor;
 use std::rc::Rc;
 
-pub const OPS_PER_BYTE: u64 = 64;
+pub const OPS_PER_BYTE: u64 = 24;
 pub const OPS_CONST: u64 = 65_536;
 pub const CALL_OPS: u64 = 64;
 
